@@ -1,4 +1,593 @@
+(* C14 — lemmas about the RTSP wire codec model: helpers, line framing, header and
+   message round-trips.  Totality, boundedness, the stream theorem and the oracle are in
+   C14RtspCodecProofs2.v. *)
 From Coq Require Import ZArith List Bool Lia Permutation.
 From V Require Import Val Bytes StrGo BytesLemmas C14RtspCodec.
 Import ListNotations.
 Open Scope Z_scope.
+
+(* ---------- lists and lengths ---------- *)
+Lemma zlen_cons x s : zlen (x :: s) = 1 + zlen s.
+Proof. unfold zlen. simpl length. lia. Qed.
+Lemma zlen_nil : zlen [] = 0.
+Proof. reflexivity. Qed.
+Lemma zlen_0_nil s : zlen s = 0 -> s = [].
+Proof. destruct s; [reflexivity|]. rewrite zlen_cons. pose proof (zlen_nonneg s). lia. Qed.
+
+Lemma no_byte_In c s : no_byte c s = true <-> ~ In c s.
+Proof.
+  unfold no_byte. induction s as [|x s IH]; simpl.
+  - split; [intros _ []|reflexivity].
+  - rewrite andb_true_iff, IH, negb_true_iff, Z.eqb_neq. split.
+    + intros [H1 H2] [E|E]; [congruence|contradiction].
+    + intros H. split; [intros E; apply H; left; exact E|intros E; apply H; right; exact E].
+Qed.
+
+Lemma firstn_zlen_app (a b : bytes) : firstn (Z.to_nat (zlen a)) (a ++ b) = a.
+Proof.
+  unfold zlen. rewrite Nat2Z.id. rewrite firstn_app, Nat.sub_diag, firstn_all. simpl. apply app_nil_r.
+Qed.
+Lemma skipn_zlen_app (a b : bytes) : skipn (Z.to_nat (zlen a)) (a ++ b) = b.
+Proof. apply drop_app_exact. Qed.
+
+Lemma take_rev_spec n s acc : take_rev n s acc = rev (firstn n s) ++ acc.
+Proof.
+  revert s acc; induction n as [|n IH]; intros s acc; simpl; [reflexivity|].
+  destruct s as [|c s]; simpl; [reflexivity|]. rewrite IH, <- app_assoc. reflexivity.
+Qed.
+Lemma take_n_firstn n s : take_n n s = firstn n s.
+Proof.
+  unfold take_n. rewrite take_rev_spec, app_nil_r, rev_append_rev, app_nil_r. apply rev_involutive.
+Qed.
+
+(* ---------- index_byte / slice ---------- *)
+Lemma index_from_notin c s i : ~ In c s -> index_from c s i = -1.
+Proof.
+  revert i; induction s as [|x s IH]; intros i H; simpl; [reflexivity|].
+  destruct (x =? c) eqn:E.
+  - apply Z.eqb_eq in E. exfalso. apply H. left. exact E.
+  - apply IH. intros I. apply H. right. exact I.
+Qed.
+Lemma index_from_app c p r i : ~ In c p -> index_from c (p ++ c :: r) i = i + zlen p.
+Proof.
+  revert i; induction p as [|x p IH]; intros i H; simpl.
+  - rewrite Z.eqb_refl, zlen_nil. lia.
+  - destruct (x =? c) eqn:E.
+    + apply Z.eqb_eq in E. exfalso. apply H. left. exact E.
+    + rewrite IH, zlen_cons; [lia|]. intros I. apply H. right. exact I.
+Qed.
+Lemma index_from_range c s i : index_from c s i = -1 \/ (i <= index_from c s i < i + zlen s).
+Proof.
+  revert i; induction s as [|x s IH]; intros i; simpl; [left; reflexivity|].
+  rewrite zlen_cons. pose proof (zlen_nonneg s). destruct (x =? c).
+  - destruct (Z.eq_dec i (-1)); [left; exact e|right; lia].
+  - destruct (IH (i + 1)) as [H1|H1]; [left; exact H1|right; lia].
+Qed.
+Lemma index_byte_app c p r : ~ In c p -> index_byte c (p ++ c :: r) = zlen p.
+Proof. intros H. unfold index_byte. rewrite index_from_app by exact H. lia. Qed.
+Lemma index_byte_range c s : index_byte c s = -1 \/ (0 <= index_byte c s < zlen s).
+Proof. apply index_from_range. Qed.
+Lemma index_byte_notin c s : ~ In c s -> index_byte c s = -1.
+Proof. apply index_from_notin. Qed.
+
+(* the decomposition a found index gives *)
+Lemma index_from_split c s i j :
+  index_from c s i = j -> j <> -1 -> 0 <= i ->
+  exists p r, s = p ++ c :: r /\ ~ In c p /\ j = i + zlen p.
+Proof.
+  revert i; induction s as [|x s IH]; intros i H N Hi; simpl in H; [congruence|].
+  destruct (x =? c) eqn:E.
+  - apply Z.eqb_eq in E. subst x. exists [], s. split; [reflexivity|]. split; [intros []|]. rewrite zlen_nil. lia.
+  - destruct (IH (i + 1) H N ltac:(lia)) as (p & r & -> & Hp & Hj).
+    exists (x :: p), r. split; [reflexivity|]. split.
+    + intros [I|I]; [apply Z.eqb_neq in E; congruence|contradiction].
+    + rewrite zlen_cons. lia.
+Qed.
+Lemma index_byte_split c s :
+  0 <= index_byte c s -> exists p r, s = p ++ c :: r /\ ~ In c p /\ index_byte c s = zlen p.
+Proof.
+  intros H. destruct (index_from_split c s 0 (index_byte c s) eq_refl ltac:(lia) ltac:(lia)) as (p & r & E & Hp & Hj).
+  exists p, r. split; [exact E|]. split; [exact Hp|lia].
+Qed.
+
+Lemma slice_some s i j : 0 <= i -> i <= j -> j <= zlen s ->
+  slice s i j = Some (firstn (Z.to_nat (j - i)) (skipn (Z.to_nat i) s)).
+Proof.
+  intros H1 H2 H3. unfold slice.
+  replace ((0 <=? i) && (i <=? j) && (j <=? zlen s)) with true; [reflexivity|].
+  symmetry. rewrite !andb_true_iff. repeat split; apply Z.leb_le; assumption.
+Qed.
+Lemma slice_prefix (p r : bytes) : slice (p ++ r) 0 (zlen p) = Some p.
+Proof.
+  rewrite slice_some; [|lia|apply zlen_nonneg|rewrite zlen_app; pose proof (zlen_nonneg r); lia].
+  simpl skipn. rewrite Z.sub_0_r, firstn_zlen_app. reflexivity.
+Qed.
+Lemma slice_suffix (p r : bytes) : slice (p ++ r) (zlen p) (zlen (p ++ r)) = Some r.
+Proof.
+  pose proof (zlen_nonneg p). pose proof (zlen_nonneg r).
+  rewrite slice_some; [|lia|rewrite zlen_app; lia|lia].
+  rewrite skipn_zlen_app, zlen_app. replace (zlen p + zlen r - zlen p) with (zlen r) by lia.
+  unfold zlen. rewrite Nat2Z.id, firstn_all. reflexivity.
+Qed.
+Lemma slice_suffix1 (p : bytes) c (r : bytes) : slice (p ++ c :: r) (zlen p + 1) (zlen (p ++ c :: r)) = Some r.
+Proof.
+  replace (p ++ c :: r) with ((p ++ [c]) ++ r) by (rewrite <- app_assoc; reflexivity).
+  replace (zlen p + 1) with (zlen (p ++ [c])) by (rewrite zlen_app, zlen_cons, zlen_nil; lia).
+  apply slice_suffix.
+Qed.
+Lemma slice_middle (a b c : bytes) : slice (a ++ b ++ c) (zlen a) (zlen a + zlen b) = Some b.
+Proof.
+  pose proof (zlen_nonneg a). pose proof (zlen_nonneg b). pose proof (zlen_nonneg c).
+  rewrite slice_some; [|lia|lia|rewrite !zlen_app; lia].
+  rewrite skipn_zlen_app. replace (zlen a + zlen b - zlen a) with (zlen b) by lia.
+  rewrite firstn_zlen_app. reflexivity.
+Qed.
+Lemma slice_len s i j t : slice s i j = Some t -> zlen t = j - i /\ 0 <= i /\ i <= j /\ j <= zlen s.
+Proof.
+  unfold slice. destruct ((0 <=? i) && (i <=? j) && (j <=? zlen s)) eqn:E; [|discriminate].
+  rewrite !andb_true_iff in E. destruct E as [[E1 E2] E3].
+  apply Z.leb_le in E1, E2, E3. intros H. inversion H; subst t. clear H.
+  split; [|lia]. unfold zlen in *. rewrite firstn_length, skipn_length. lia.
+Qed.
+
+(* ---------- trimming ---------- *)
+Lemma trim_left_In f s x : In x (trim_left f s) -> In x s.
+Proof.
+  induction s as [|c s IH]; simpl; [tauto|]. destruct (f c); [intros H; right; apply IH; exact H|tauto].
+Qed.
+Lemma trim_left_len f s : zlen (trim_left f s) <= zlen s.
+Proof.
+  induction s as [|c s IH]; cbn [trim_left]; [lia|]. destruct (f c); [rewrite zlen_cons; lia|lia].
+Qed.
+Lemma trim_right_sp_In s x : In x (trim_right_sp s) -> In x s.
+Proof.
+  induction s as [|c s IH]; simpl; [tauto|].
+  destruct (trim_right_sp s) as [|t ts] eqn:E.
+  - destruct (is_space c); simpl; tauto.
+  - intros [H|H]; [left; exact H|right; apply IH; exact H].
+Qed.
+Lemma trim_right_sp_len s : zlen (trim_right_sp s) <= zlen s.
+Proof.
+  induction s as [|c s IH]; cbn [trim_right_sp]; [lia|]. rewrite (zlen_cons c s).
+  destruct (trim_right_sp s) as [|t ts] eqn:E.
+  - pose proof (zlen_nonneg s). destruct (is_space c); [rewrite zlen_nil|rewrite zlen_cons, zlen_nil]; lia.
+  - rewrite (zlen_cons c (t :: ts)). lia.
+Qed.
+Lemma trim_sp_In s x : In x (trim_sp s) -> In x s.
+Proof. unfold trim_sp. intros H. apply trim_right_sp_In in H. eapply trim_left_In; exact H. Qed.
+Lemma trim_sp_len s : zlen (trim_sp s) <= zlen s.
+Proof. unfold trim_sp. pose proof (trim_right_sp_len (trim_left is_space s)). pose proof (trim_left_len is_space s). lia. Qed.
+
+Lemma trim_left_nospace s : forallb (fun c => negb (is_space c)) s = true -> trim_left is_space s = s.
+Proof. destruct s as [|c s]; simpl; [reflexivity|]. rewrite andb_true_iff, negb_true_iff. intros [-> _]. reflexivity. Qed.
+Lemma trim_right_sp_nospace s : forallb (fun c => negb (is_space c)) s = true -> trim_right_sp s = s.
+Proof.
+  induction s as [|c s IH]; simpl; [reflexivity|]. rewrite andb_true_iff, negb_true_iff. intros [Hc Hs].
+  rewrite (IH Hs). destruct s; [rewrite Hc|]; reflexivity.
+Qed.
+Lemma trim_sp_token s : forallb (fun c => negb (is_space c)) s = true -> trim_sp s = s.
+Proof. intros H. unfold trim_sp. rewrite trim_left_nospace by exact H. apply trim_right_sp_nospace; exact H. Qed.
+
+Lemma canonical_kv_sp v : canonical_kv (SP :: v) = canonical_kv v.
+Proof. reflexivity. Qed.
+Lemma canonical_kv_len s : zlen (canonical_kv s) <= zlen s.
+Proof.
+  unfold canonical_kv. pose proof (trim_sp_len (map nl_to_sp s)). unfold zlen in *. rewrite map_length in *. lia.
+Qed.
+Lemma nl_to_sp_not c x : (c = LF \/ c = CR) -> nl_to_sp x <> c.
+Proof.
+  unfold nl_to_sp, LF, CR, SP. intros [-> | ->]; destruct ((x =? 10) || (x =? 13)) eqn:E; try lia;
+    rewrite orb_false_iff in E; destruct E as [E1 E2]; apply Z.eqb_neq in E1, E2; lia.
+Qed.
+Lemma fixed_kv_no c s : (c = LF \/ c = CR) -> fixed_kv s = true -> ~ In c s.
+Proof.
+  intros Hc H. unfold fixed_kv in H. apply bytes_eqb_eq in H. intros I. rewrite <- H in I.
+  unfold canonical_kv in I. apply trim_sp_In in I. apply in_map_iff in I as (x & E & _).
+  eapply nl_to_sp_not; eauto.
+Qed.
+
+(* ---------- lines ---------- *)
+Lemma split_lf_app p r : ~ In LF p -> split_lf (p ++ LF :: r) = Some (p, r).
+Proof.
+  induction p as [|x p IH]; intros H; simpl.
+  - reflexivity.
+  - destruct (x =? LF) eqn:E.
+    + apply Z.eqb_eq in E. exfalso. apply H. left. exact E.
+    + rewrite IH; [reflexivity|]. intros I. apply H. right. exact I.
+Qed.
+Lemma split_lf_some s l r : split_lf s = Some (l, r) -> s = l ++ LF :: r /\ ~ In LF l.
+Proof.
+  revert l r; induction s as [|x s IH]; intros l r H; simpl in H; [discriminate|].
+  destruct (x =? LF) eqn:E.
+  - apply Z.eqb_eq in E. inversion H; subst. split; [reflexivity|intros []].
+  - destruct (split_lf s) as [[l' r']|] eqn:S; [|discriminate]. inversion H; subst.
+    destruct (IH l' r eq_refl) as [-> N]. split; [reflexivity|].
+    intros [I|I]; [apply Z.eqb_neq in E; congruence|contradiction].
+Qed.
+Lemma split_lf_none s : split_lf s = None -> ~ In LF s.
+Proof.
+  induction s as [|x s IH]; simpl; [intros _ []|].
+  destruct (x =? LF) eqn:E; [discriminate|]. destruct (split_lf s) as [[? ?]|]; [discriminate|].
+  intros _ [I|I]; [apply Z.eqb_neq in E; congruence|apply IH; [reflexivity|exact I]].
+Qed.
+
+Lemma strip_cr_snoc l : strip_cr (l ++ [CR]) = l.
+Proof.
+  induction l as [|c l IH]; [reflexivity|].
+  change ((c :: l) ++ [CR]) with (c :: (l ++ [CR])). simpl strip_cr. rewrite IH.
+  destruct (l ++ [CR]) eqn:E; [destruct l; discriminate|reflexivity].
+Qed.
+Lemma strip_cr_len l : zlen (strip_cr l) <= zlen l.
+Proof.
+  induction l as [|c l IH]; [simpl; lia|]. simpl strip_cr. destruct l as [|d l].
+  - destruct (c =? CR); rewrite ?zlen_cons, ?zlen_nil; lia.
+  - rewrite !zlen_cons in *. lia.
+Qed.
+
+Lemma read_line_unfold c s :
+  read_line (c :: s) =
+  let '(l, rest) := match split_lf (c :: s) with
+                    | Some (raw, rest) => (strip_cr raw, rest)
+                    | None => (c :: s, [])
+                    end in
+  if zlen l >? max_line then Err ELineTooLong else Ok l rest.
+Proof. reflexivity. Qed.
+
+Lemma read_line_crlf l rest :
+  ~ In LF l -> zlen l <= max_line -> read_line (l ++ CRLF ++ rest) = Ok l rest.
+Proof.
+  intros N L.
+  assert (E : l ++ CRLF ++ rest = (l ++ [CR]) ++ LF :: rest) by (rewrite <- app_assoc; reflexivity).
+  assert (S : split_lf (l ++ CRLF ++ rest) = Some (l ++ [CR], rest)).
+  { rewrite E. apply split_lf_app. intros I. apply in_app_or in I as [I|[I|[]]]; [contradiction|discriminate]. }
+  destruct (l ++ CRLF ++ rest) as [|c s] eqn:D; [destruct l; discriminate|].
+  rewrite read_line_unfold, S, strip_cr_snoc.
+  destruct (zlen l >? max_line) eqn:G; [lia|reflexivity].
+Qed.
+
+(* what a successful readLine guarantees *)
+Lemma read_line_ok s l rest :
+  read_line s = Ok l rest ->
+  zlen l <= max_line /\ zlen l + zlen rest <= zlen s /\ (length rest < length s)%nat /\
+  (forall x, In x l -> In x s).
+Proof.
+  unfold read_line, read_line_lim. destruct s as [|c s]; [discriminate|].
+  destruct (split_lf (c :: s)) as [[raw r]|] eqn:S.
+  - destruct (zlen (strip_cr raw) >? max_line) eqn:G; [discriminate|]. intros H. inversion H; subst. clear H.
+    apply split_lf_some in S as [E N]. rewrite E. pose proof (strip_cr_len raw).
+    rewrite zlen_app, zlen_cons. split; [lia|]. split; [lia|]. split.
+    + rewrite app_length. simpl. lia.
+    + intros x I. apply in_or_app. left. clear - I. induction raw as [|a raw IH]; [destruct I|].
+      simpl in I. destruct raw as [|b raw]; [destruct (a =? CR); [destruct I|exact I]|].
+      destruct I as [I|I]; [left; exact I|right; apply IH; exact I].
+  - destruct (zlen (c :: s) >? max_line) eqn:G; [discriminate|]. intros H. inversion H; subst. clear H.
+    rewrite zlen_nil. split; [lia|]. split; [lia|]. split; [simpl; lia|tauto].
+Qed.
+
+(* ---------- numbers ---------- *)
+Lemma digits_val_app acc a b : digits_val acc (a ++ b) = digits_val (digits_val acc a) b.
+Proof. revert acc; induction a as [|d a IH]; intros acc; simpl; [reflexivity|apply IH]. Qed.
+
+From Coq Require Import ZifyBool.
+Ltac Zify.zify_post_hook ::= Z.div_mod_to_equations.
+
+Lemma itoa_fuel_ok f : forall n, 0 <= n < 2 ^ (Z.of_nat f + 1) ->
+  forallb is_digit (itoa_fuel (S f) n) = true /\ itoa_fuel (S f) n <> [] /\
+  forall acc, digits_val acc (itoa_fuel (S f) n) = acc * 10 ^ zlen (itoa_fuel (S f) n) + n.
+Proof.
+  induction f as [|f IH]; intros n Hn.
+  - change (2 ^ (Z.of_nat 0 + 1)) with 2 in Hn. cbn [itoa_fuel].
+    replace (n <? 10) with true by lia.
+    split; [unfold is_digit; cbn [forallb]; lia|]. split; [discriminate|].
+    intros acc. cbn [digits_val]. rewrite zlen_cons, zlen_nil. change (10 ^ (1 + 0)) with 10. lia.
+  - change (itoa_fuel (S (S f)) n) with (if n <? 10 then [48 + n] else itoa_fuel (S f) (n / 10) ++ [48 + n mod 10]).
+    destruct (n <? 10) eqn:E.
+    + split; [unfold is_digit; cbn [forallb]; lia|]. split; [discriminate|].
+      intros acc. cbn [digits_val]. rewrite zlen_cons, zlen_nil. change (10 ^ (1 + 0)) with 10. lia.
+    + assert (Hq : 0 <= n / 10 < 2 ^ (Z.of_nat f + 1)).
+      { rewrite Nat2Z.inj_succ in Hn. replace (Z.succ (Z.of_nat f) + 1) with (Z.succ (Z.of_nat f + 1)) in Hn by lia.
+        rewrite Z.pow_succ_r in Hn by lia. lia. }
+      destruct (IH (n / 10) Hq) as (D & NE & V).
+      split; [|split].
+      * rewrite forallb_app, D. unfold is_digit; cbn [forallb]. lia.
+      * destruct (itoa_fuel (S f) (n / 10)); discriminate.
+      * intros acc. rewrite digits_val_app, V. cbn [digits_val]. rewrite zlen_app, zlen_cons, zlen_nil.
+        pose proof (zlen_nonneg (itoa_fuel (S f) (n / 10))).
+        rewrite Z.pow_add_r by lia. change (10 ^ (1 + 0)) with 10. lia.
+Qed.
+
+Lemma itoa_ok n : 0 <= n ->
+  forallb is_digit (itoa n) = true /\ itoa n <> [] /\ digits_val 0 (itoa n) = n.
+Proof.
+  intros Hn. unfold itoa.
+  assert (B : 0 <= n < 2 ^ (Z.of_nat (Z.to_nat (Z.log2 n)) + 1)).
+  { split; [exact Hn|]. rewrite Z2Nat.id by apply Z.log2_nonneg.
+    destruct (Z.eq_dec n 0) as [->|NZ]; [cbn; lia|].
+    replace (Z.log2 n + 1) with (Z.succ (Z.log2 n)) by lia. apply Z.log2_spec. lia. }
+  destruct (itoa_fuel_ok _ n B) as (D & NE & V). split; [exact D|]. split; [exact NE|]. rewrite V. lia.
+Qed.
+
+Lemma parse_dec_itoa n : 0 <= n -> parse_dec (itoa n) = Some n.
+Proof.
+  intros Hn. destruct (itoa_ok n Hn) as (D & NE & V).
+  destruct (itoa n) as [|d ds] eqn:E; [congruence|].
+  assert (Hd : is_digit d = true) by (cbn in D; apply andb_true_iff in D; tauto).
+  unfold parse_dec.
+  assert (P : parse_udec (d :: ds) = Some n) by (unfold parse_udec; rewrite D, V; reflexivity).
+  unfold is_digit in Hd.
+  destruct (Z.eq_dec d 43) as [->|N1]; [cbn in Hd; discriminate|].
+  destruct (Z.eq_dec d 45) as [->|N2]; [cbn in Hd; discriminate|].
+  destruct d as [|p|p]; try exact P.
+  do 6 (destruct p as [p|p|]; try exact P); try lia.
+Qed.
+
+(* ---------- header maps ---------- *)
+Lemma hvals_hadd h k v K :
+  hvals (hadd h k v) K = if bytes_eqb k K then hvals h K ++ [v] else hvals h K.
+Proof.
+  induction h as [|[k' vs] h IH]; cbn [hadd hvals].
+  - destruct (bytes_eqb k K); reflexivity.
+  - destruct (bytes_eqb k' k) eqn:E1; cbn [hvals].
+    + apply bytes_eqb_eq in E1. subst k'. destruct (bytes_eqb k K) eqn:E2; reflexivity.
+    + destruct (bytes_eqb k' K) eqn:E2.
+      * destruct (bytes_eqb k K) eqn:E3; [|reflexivity].
+        apply bytes_eqb_eq in E2, E3. subst. rewrite bytes_eqb_refl in E1. discriminate.
+      * exact IH.
+Qed.
+
+Definition is_key (K : bytes) (e : bytes * list bytes) : bool := bytes_eqb (canon_key (fst e)) K.
+
+Lemma hvals_norm_fold L : forall acc K,
+  hvals (fold_left norm_step L acc) K =
+  hvals acc K ++ map (fun e => join_vals (snd e)) (filter (is_key K) L).
+Proof.
+  induction L as [|e L IH]; intros acc K; cbn [fold_left filter map].
+  - rewrite app_nil_r. reflexivity.
+  - rewrite IH. unfold norm_step. rewrite hvals_hadd.
+    change (is_key K e) with (bytes_eqb (canon_key (fst e)) K).
+    destruct (bytes_eqb (canon_key (fst e)) K); cbn [map]; [rewrite <- app_assoc|]; reflexivity.
+Qed.
+
+Lemma hinsert_perm e h : Permutation (hinsert e h) (e :: h).
+Proof.
+  induction h as [|e' h IH]; cbn [hinsert]; [apply Permutation_refl|].
+  destruct (bytes_ltb (fst e') (fst e)); [|apply Permutation_refl].
+  eapply Permutation_trans; [apply perm_skip; exact IH|apply perm_swap].
+Qed.
+Lemma hsort_perm h : Permutation (hsort h) h.
+Proof.
+  induction h as [|e h IH]; cbn [hsort fold_right]; [apply Permutation_refl|].
+  eapply Permutation_trans; [apply hinsert_perm|apply perm_skip; exact IH].
+Qed.
+Lemma filter_perm {A} (f : A -> bool) l l' : Permutation l l' -> Permutation (filter f l) (filter f l').
+Proof.
+  induction 1; cbn [filter].
+  - apply Permutation_refl.
+  - destruct (f x); [apply perm_skip|]; assumption.
+  - destruct (f x), (f y); try apply Permutation_refl. apply perm_swap.
+  - eapply Permutation_trans; eassumption.
+Qed.
+Lemma forallb_hsort f h : forallb f h = true -> forallb f (hsort h) = true.
+Proof. intros H. rewrite (forallb_perm f _ _ (hsort_perm h)). exact H. Qed.
+
+Lemma filter_none {A} (f : A -> bool) l : forallb (fun x => negb (f x)) l = true -> filter f l = [].
+Proof.
+  induction l as [|x l IH]; cbn [forallb filter]; [reflexivity|].
+  rewrite andb_true_iff, negb_true_iff. intros [-> H]. apply IH; exact H.
+Qed.
+
+Lemma canon_key_CL : canon_key CONTENT_LENGTH = CONTENT_LENGTH.
+Proof. vm_compute. reflexivity. Qed.
+
+(* with no other spelling of Content-Length in h, the only field that reads back under
+   that key is the one Write put there *)
+Lemma hremove_no_CL h : forallb cl_wf h = true ->
+  forallb (fun e => negb (is_key CONTENT_LENGTH e)) (hremove h CONTENT_LENGTH) = true.
+Proof.
+  unfold hremove. induction h as [|e h IH]; cbn [forallb filter]; [reflexivity|].
+  rewrite andb_true_iff. intros [He Hh]. destruct (bytes_eqb (fst e) CONTENT_LENGTH) eqn:E; cbn [negb].
+  - apply IH; exact Hh.
+  - cbn [forallb]. rewrite (IH Hh), andb_true_r. unfold cl_wf in He. rewrite E in He. exact He.
+Qed.
+
+Lemma hremove_forallb f h k : forallb f h = true -> forallb f (hremove h k) = true.
+Proof.
+  unfold hremove. induction h as [|e h IH]; cbn [forallb filter]; [reflexivity|].
+  rewrite andb_true_iff. intros [He Hh]. destruct (negb (bytes_eqb (fst e) k)); [cbn [forallb]; rewrite He|]; apply IH; exact Hh.
+Qed.
+
+Lemma content_length_norm h body :
+  forallb cl_wf h = true -> zlen body <= max_body ->
+  content_length (norm_hdr h body) = zlen body.
+Proof.
+  intros W B. unfold content_length, hget, norm_hdr. rewrite hvals_norm_fold. cbn [hvals app].
+  pose proof (filter_perm (is_key CONTENT_LENGTH) _ _ (hsort_perm (set_cl h body))) as P.
+  unfold set_cl in *. destruct body as [|b0 body'].
+  - rewrite (filter_none _ _ (hremove_no_CL h W)) in P. apply Permutation_sym, Permutation_nil in P.
+    rewrite P. reflexivity.
+  - set (body := b0 :: body') in *. cbn [filter] in P.
+    replace (is_key CONTENT_LENGTH (CONTENT_LENGTH, [itoa (zlen body)])) with true in P
+      by (unfold is_key; cbn [fst]; rewrite canon_key_CL, bytes_eqb_refl; reflexivity).
+    rewrite (filter_none _ _ (hremove_no_CL h W)) in P. apply Permutation_sym, Permutation_length_1_inv in P.
+    rewrite P. cbn [map hd snd join_vals].
+    pose proof (zlen_nonneg body). rewrite parse_dec_itoa by lia.
+    unfold max_body in B. replace ((0 <=? zlen body) && (zlen body <=? 2147483647)) with true by lia. reflexivity.
+Qed.
+
+(* ---------- reading back what Header.Write wrote ---------- *)
+Lemma field_line_parse k v :
+  fixed_kv k = true -> zlen k <> 0 -> no_byte COLON k = true -> fixed_kv v = true ->
+  parse_header_line (k ++ COLON_SP ++ v) = Ok (HLField (canon_key k) v) [].
+Proof.
+  intros Fk Nk Ck Fv. unfold parse_header_line.
+  change (k ++ COLON_SP ++ v) with (k ++ COLON :: SP :: v).
+  apply no_byte_In in Ck. rewrite index_byte_app by exact Ck.
+  pose proof (zlen_nonneg k). replace (zlen k <? 0) with false by lia.
+  rewrite slice_prefix, slice_suffix1. rewrite canonical_kv_sp.
+  apply bytes_eqb_eq in Fk, Fv. rewrite Fk, Fv.
+  replace (zlen k =? 0) with false by lia. reflexivity.
+Qed.
+
+Lemma field_wf_parts e : field_wf e = true ->
+  fixed_kv (fst e) = true /\ zlen (fst e) <> 0 /\ no_byte COLON (fst e) = true /\
+  fixed_kv (join_vals (snd e)) = true /\ zlen (fst e) + 2 + zlen (join_vals (snd e)) <= max_line.
+Proof.
+  unfold field_wf. rewrite !andb_true_iff, negb_true_iff. intros [[[[A B] C] D] E].
+  repeat split; try assumption; lia.
+Qed.
+
+Lemma read_header_written L : forall f rest acc,
+  forallb field_wf L = true -> (length L < f)%nat ->
+  read_header_f f (write_fields L ++ CRLF ++ rest) acc = Ok (fold_left norm_step L acc) rest.
+Proof.
+  induction L as [|e L IH]; intros f rest acc W F.
+  - destruct f as [|f]; [simpl in F; lia|]. cbn [write_fields app read_header_f fold_left].
+    change (CRLF ++ rest) with ([] ++ CRLF ++ rest).
+    rewrite read_line_crlf; [reflexivity|intros []|cbn; unfold max_line; lia].
+  - destruct f as [|f]; [simpl in F; lia|]. cbn [forallb] in W. apply andb_true_iff in W as [We WL].
+    destruct (field_wf_parts e We) as (Fk & Nk & Ck & Fv & Ln).
+    cbn [write_fields fold_left]. unfold write_field.
+    replace (((fst e ++ COLON_SP ++ join_vals (snd e) ++ CRLF) ++ write_fields L) ++ CRLF ++ rest)
+      with ((fst e ++ COLON_SP ++ join_vals (snd e)) ++ CRLF ++ (write_fields L ++ CRLF ++ rest))
+      by (rewrite <- !app_assoc; reflexivity).
+    cbn [read_header_f]. rewrite read_line_crlf.
+    + assert (Z : zlen (fst e ++ COLON_SP ++ join_vals (snd e)) =? 0 = false).
+      { rewrite zlen_app. pose proof (zlen_nonneg (fst e)). pose proof (zlen_nonneg (COLON_SP ++ join_vals (snd e))). lia. }
+      rewrite Z, field_line_parse by assumption.
+      apply IH; [exact WL|simpl in F; lia].
+    + intros I. apply in_app_or in I as [I|I]; [exact (fixed_kv_no LF _ (or_introl eq_refl) Fk I)|].
+      apply in_app_or in I as [I|I]; [destruct I as [I|[I|[]]]; discriminate|exact (fixed_kv_no LF _ (or_introl eq_refl) Fv I)].
+    + rewrite !zlen_app. change (zlen COLON_SP) with 2. lia.
+Qed.
+
+Lemma set_cl_wf h body : forallb field_wf h = true -> zlen body <= max_body ->
+  forallb field_wf (set_cl h body) = true.
+Proof.
+  intros W B. unfold set_cl. destruct body as [|b0 body']; [apply hremove_forallb; exact W|].
+  set (body := b0 :: body') in *. cbn [forallb]. rewrite (hremove_forallb _ _ _ W), andb_true_r.
+  (* the Content-Length field itself *)
+  pose proof (zlen_nonneg body). destruct (itoa_ok (zlen body) ltac:(lia)) as (D & NE & V).
+  assert (K1 : fixed_kv CONTENT_LENGTH && negb (zlen CONTENT_LENGTH =? 0) && no_byte COLON CONTENT_LENGTH = true)
+    by (vm_compute; reflexivity).
+  assert (K2 : fixed_kv (itoa (zlen body)) = true).
+  { (* digits are a fixed point of canonicalKV *)
+    unfold fixed_kv. apply bytes_eqb_eq. unfold canonical_kv.
+    assert (M : map nl_to_sp (itoa (zlen body)) = itoa (zlen body)).
+    { clear - D. induction (itoa (zlen body)) as [|d ds IH]; [reflexivity|].
+      cbn [forallb] in D. apply andb_true_iff in D as [Hd Hs]. cbn [map]. rewrite (IH Hs). f_equal.
+      unfold nl_to_sp, is_digit, LF, CR in *. replace ((d =? 10) || (d =? 13)) with false by lia. reflexivity. }
+    rewrite M. apply trim_sp_token. clear - D.
+    induction (itoa (zlen body)) as [|d ds IH]; [reflexivity|].
+    cbn [forallb] in *. apply andb_true_iff in D as [Hd Hs]. rewrite (IH Hs), andb_true_r.
+    unfold is_digit, is_space in *. lia. }
+  assert (K3 : zlen CONTENT_LENGTH + 2 + zlen (itoa (zlen body)) <=? max_line = true).
+  { assert (Hlen : zlen (itoa (zlen body)) <= 22).
+    { unfold itoa. pose proof (Z.log2_nonneg (zlen body)).
+      assert (Z.log2 (zlen body) <= 20).
+      { pose proof (Z.log2_le_mono (zlen body) 1048576 ltac:(unfold max_body in B; lia)) as LM.
+        change (Z.log2 1048576) with 20 in LM. exact LM. }
+      assert (G : forall f n, zlen (itoa_fuel f n) <= Z.of_nat f).
+      { induction f as [|f IHf]; intros n; cbn [itoa_fuel]; [cbn; lia|].
+        destruct (n <? 10); [rewrite zlen_cons, zlen_nil; lia|].
+        rewrite zlen_app, zlen_cons, zlen_nil. specialize (IHf (n / 10)). lia. }
+      specialize (G (S (Z.to_nat (Z.log2 (zlen body)))) (zlen body)). lia. }
+    change (zlen CONTENT_LENGTH) with 14. unfold max_line. lia. }
+  unfold field_wf. cbn [fst snd join_vals]. rewrite K1, K2, K3. reflexivity.
+Qed.
+
+Lemma read_header_write h body rest :
+  forallb field_wf h = true -> zlen body <= max_body ->
+  read_header (write_header (set_cl h body) ++ rest) = Ok (norm_hdr h body) rest.
+Proof.
+  intros W B. unfold read_header, write_header, norm_hdr. rewrite <- app_assoc.
+  apply read_header_written.
+  - apply forallb_hsort, set_cl_wf; assumption.
+  - rewrite !app_length. pose proof (Permutation_length (hsort_perm (set_cl h body))) as P.
+    assert (G : forall L, (length L <= length (write_fields L))%nat).
+    { induction L as [|e L IHL]; cbn [write_fields length]; [lia|]. rewrite app_length.
+      unfold write_field. rewrite !app_length. cbn [length COLON_SP CRLF]. lia. }
+    specialize (G (hsort (set_cl h body))). cbn [length CRLF]. lia.
+Qed.
+
+(* ---------- bodies ---------- *)
+Lemma read_body_exact h body rest :
+  content_length h = zlen body -> zlen body <= max_body ->
+  read_body h (body ++ rest) = Ok body rest.
+Proof.
+  intros C B. unfold read_body, read_body_lim. rewrite C.
+  destruct (zlen body <=? 0) eqn:E.
+  - pose proof (zlen_nonneg body). rewrite (zlen_0_nil body) by lia. reflexivity.
+  - replace (zlen body >? max_body) with false by lia.
+    rewrite zlen_app. pose proof (zlen_nonneg rest). replace (zlen body + zlen rest <? zlen body) with false by lia.
+    rewrite take_n_firstn, firstn_zlen_app, skipn_zlen_app. reflexivity.
+Qed.
+
+(* ---------- requests ---------- *)
+Lemma token_no_space s c : forallb (fun c => negb (is_space c)) s = true -> is_space c = true -> ~ In c s.
+Proof.
+  intros H Hc I. rewrite forallb_forall in H. specialize (H c I). rewrite Hc in H. discriminate.
+Qed.
+
+Lemma token_wf_parts s : token_wf s = true -> zlen s <> 0 /\ forallb (fun c => negb (is_space c)) s = true.
+Proof. unfold token_wf. rewrite andb_true_iff, negb_true_iff. intros [A B]. split; [lia|exact B]. Qed.
+
+Lemma hdr_wf_parts h : hdr_wf h = true -> forallb field_wf h = true /\ forallb cl_wf h = true.
+Proof. unfold hdr_wf. rewrite andb_true_iff. tauto. Qed.
+
+Lemma request_line_parse url_norm m u :
+  token_wf m = true -> token_wf u = true ->
+  match m with c :: _ => c =? DOLLAR | [] => true end = false ->
+  (bytes_eqb m OPTIONS || negb (bytes_eqb u STAR)) = true ->
+  url_norm u = Some u ->
+  parse_request_line url_norm (m ++ SP :: u ++ SP :: RTSP10) = Ok (m, u, RTSP10) [].
+Proof.
+  intros Wm Wu D O U.
+  destruct (token_wf_parts m Wm) as [Nm Tm]. destruct (token_wf_parts u Wu) as [Nu Tu].
+  assert (Sm : ~ In SP m) by (apply token_no_space; [exact Tm|reflexivity]).
+  assert (Su : ~ In SP u) by (apply token_no_space; [exact Tu|reflexivity]).
+  unfold parse_request_line.
+  rewrite index_byte_app by exact Sm. rewrite slice_suffix1. rewrite index_byte_app by exact Su.
+  pose proof (zlen_nonneg m). pose proof (zlen_nonneg u).
+  replace ((zlen m <? 0) || (zlen u <? 0)) with false by lia.
+  rewrite slice_prefix.
+  assert (S2 : slice (m ++ SP :: u ++ SP :: RTSP10) (zlen m + 1) (zlen u + zlen m + 1) = Some u).
+  { replace (m ++ SP :: u ++ SP :: RTSP10) with ((m ++ [SP]) ++ u ++ (SP :: RTSP10)) by (rewrite <- app_assoc; reflexivity).
+    replace (zlen m + 1) with (zlen (m ++ [SP])) by (rewrite zlen_app, zlen_cons, zlen_nil; lia).
+    replace (zlen u + zlen m + 1) with (zlen (m ++ [SP]) + zlen u) by (rewrite zlen_app, zlen_cons, zlen_nil; lia).
+    apply slice_middle. }
+  rewrite S2.
+  assert (S3 : slice (m ++ SP :: u ++ SP :: RTSP10) (zlen u + zlen m + 1 + 1) (zlen (m ++ SP :: u ++ SP :: RTSP10)) = Some RTSP10).
+  { replace (m ++ SP :: u ++ SP :: RTSP10) with ((m ++ SP :: u) ++ SP :: RTSP10) by (rewrite <- app_assoc; reflexivity).
+    replace (zlen u + zlen m + 1 + 1) with (zlen (m ++ SP :: u) + 1) by (rewrite zlen_app, zlen_cons; lia).
+    apply slice_suffix1. }
+  rewrite S3. rewrite (trim_sp_token m Tm), (trim_sp_token u Tu).
+  change (trim_sp RTSP10) with RTSP10.
+  replace (zlen m =? 0) with false by lia.
+  destruct m as [|c m']; [rewrite zlen_nil in Nm; lia|]. cbn [idx Z.ltb Z.compare Z.to_nat nth_error].
+  change (idx (c :: m') 0) with (Some c). rewrite D.
+  destruct (bytes_eqb (c :: m') OPTIONS), (bytes_eqb u STAR); cbn [negb andb orb] in *; try discriminate;
+    rewrite U; reflexivity.
+Qed.
+
+Theorem request_roundtrip url_norm q rest :
+  request_wf url_norm q = true ->
+  read_request url_norm (write_request q ++ rest) = Ok (norm_request q) rest.
+Proof.
+  unfold request_wf. rewrite !andb_true_iff, !negb_true_iff.
+  intros [[[[[[[[Wm Wu] D] R] O] U] L] Wh] B].
+  destruct (url_norm (q_url q)) as [u'|] eqn:EU; [|discriminate]. apply bytes_eqb_eq in U. subst u'.
+  destruct (hdr_wf_parts _ Wh) as [Wf Wc]. apply Z.leb_le in L, B.
+  destruct (token_wf_parts _ Wm) as [Nm Tm]. destruct (token_wf_parts _ Wu) as [Nu Tu].
+  unfold read_request, write_request.
+  replace ((q_method q ++ SP :: q_url q ++ SP :: RTSP10 ++ CRLF ++ write_header (set_cl (q_hdr q) (q_body q)) ++ q_body q) ++ rest)
+    with ((q_method q ++ SP :: q_url q ++ SP :: RTSP10) ++ CRLF ++ (write_header (set_cl (q_hdr q) (q_body q)) ++ (q_body q ++ rest))).
+  2:{ repeat (rewrite <- app_assoc || rewrite <- app_comm_cons). reflexivity. }
+  rewrite read_line_crlf.
+  - rewrite (request_line_parse url_norm) by assumption.
+    rewrite read_header_write by assumption.
+    rewrite read_body_exact; [reflexivity|apply content_length_norm; assumption|exact B].
+  - intros I. apply in_app_or in I as [I|[I|I]]; [revert I; apply token_no_space; [exact Tm|reflexivity]|discriminate|].
+    apply in_app_or in I as [I|I]; [revert I; apply token_no_space; [exact Tu|reflexivity]|].
+    cbn in I. repeat (destruct I as [I|I]; [discriminate|]). exact I.
+  - rewrite zlen_app, zlen_cons, zlen_app, zlen_cons. change (zlen RTSP10) with 8. lia.
+Qed.
